@@ -26,12 +26,17 @@ import (
 	"seehuhn.de/go/pdf/zzverif/checks/wprog"
 	"seehuhn.de/go/pdf/zzverif/engine/ev"
 	"seehuhn.de/go/pdf/zzverif/engine/explore"
+	"seehuhn.de/go/pdf/zzverif/ref/pdffile"
 )
 
 // ---------------------------------------------------------------------------
 // documents
 
 type docSpec struct {
+	// RawEnd, if not 0, asks for a content stream whose stored (possibly
+	// encrypted) bytes end in this byte: CR or LF at the end of the raw data is
+	// what makes a wrong guess about the stream's extent lose a byte.
+	RawEnd byte        `json:"raw_end,omitempty"`
 	Big    bool        `json:"big,omitempty"` // 150 extra objects and two objects larger than the scanner's 1 KiB buffer
 	Name   string      `json:"name"`
 	V      pdf.Version `json:"version"`
@@ -85,9 +90,35 @@ func (d *detRand) Read(p []byte) (int, error) {
 var buildMu sync.Mutex
 
 func buildDoc(spec docSpec) (*document, error) {
+	if spec.RawEnd == 0 {
+		return buildDocSeed(spec, 0)
+	}
+	// search the deterministic seeds for a document whose raw content stream ends in RawEnd
+	for try := uint64(1); try < 20000; try++ {
+		d, err := buildDocSeed(spec, try)
+		if err != nil {
+			return nil, err
+		}
+		ropt := pdffile.Options{}
+		if spec.User != "" {
+			ropt.Password = &spec.User
+		}
+		f, perr := pdffile.Read(d.data, ropt)
+		if perr != nil {
+			return nil, perr
+		}
+		o := f.Objects[int(d.streams[0].Number())]
+		if o != nil && o.IsStream && len(o.Raw) > 0 && o.Raw[len(o.Raw)-1] == spec.RawEnd {
+			return d, nil
+		}
+	}
+	return nil, fmt.Errorf("no seed gives a raw stream ending in %#x", spec.RawEnd)
+}
+
+func buildDocSeed(spec docSpec, seedOffset uint64) (*document, error) {
 	buildMu.Lock()
 	defer buildMu.Unlock()
-	seed := uint64(0x9e3779b97f4a7c15)
+	seed := uint64(0x9e3779b97f4a7c15) + seedOffset*0x100000001b3
 	if v := os.Getenv("VERIF_C19_DOCSEED"); v != "" {
 		fmt.Sscan(v, &seed)
 	}
@@ -118,7 +149,11 @@ func buildDoc(spec docSpec) (*document, error) {
 	if err != nil {
 		return nil, err
 	}
-	if _, err := s.Write(noise(3072, 99)); err != nil {
+	body := noise(3072, 99)
+	if spec.RawEnd != 0 && spec.User == "" && spec.Filter == 0 {
+		body[len(body)-1] = spec.RawEnd
+	}
+	if _, err := s.Write(body); err != nil {
 		return nil, err
 	}
 	if err := s.Close(); err != nil {
@@ -137,12 +172,25 @@ func buildDoc(spec docSpec) (*document, error) {
 		// many objects (a cross-reference table of several buffers) and objects
 		// that are themselves longer than the scanner's buffer, so that tokens and
 		// table entries straddle every refill boundary
+		// on versions with object streams the 150 objects go into three object
+		// streams of 50 members (an index of several hundred bytes each)
+		var grpRefs []pdf.Reference
+		var grpObjs []pdf.Object
 		for i := 0; i < 150; i++ {
 			ref := w.Alloc()
-			if err := w.Put(ref, pdf.Dict{"I": pdf.Integer(i), "S": pdf.String(fmt.Sprintf("object number %d", i))}); err != nil {
+			obj := pdf.Dict{"I": pdf.Integer(i), "S": pdf.String(fmt.Sprintf("object number %d", i))}
+			if spec.V >= pdf.V1_5 && !spec.Human {
+				grpRefs, grpObjs = append(grpRefs, ref), append(grpObjs, obj)
+				if len(grpRefs) == 50 {
+					if err := w.WriteCompressed(grpRefs, grpObjs...); err != nil {
+						return nil, err
+					}
+					grpRefs, grpObjs = nil, nil
+				}
+			} else if err := w.Put(ref, obj); err != nil {
 				return nil, err
 			}
-			if i%37 == 0 {
+			if i%37 == 0 || i%50 == 49 {
 				extra = append(extra, ref)
 			}
 		}
@@ -188,7 +236,11 @@ func docSpecs(thorough bool) []docSpec {
 	}
 	out = append(out, docSpec{Name: "table-150-objects", V: pdf.V1_4, Filter: 1, Big: true},
 		docSpec{Name: "xrefstream-150-objects", V: pdf.V1_7, Filter: 0, Big: true},
-		docSpec{Name: "human-150-objects", V: pdf.V1_7, Human: true, Filter: 0, Big: true})
+		docSpec{Name: "human-150-objects", V: pdf.V1_7, Human: true, Filter: 0, Big: true},
+		docSpec{Name: "aes128-150-compressed-objects", V: pdf.V1_7, Filter: 1, User: "secret", Big: true})
+	out = append(out, docSpec{Name: "aes128-raw-ends-LF", V: pdf.V1_7, Filter: 1, User: "secret", RawEnd: '\n'},
+		docSpec{Name: "aes128-raw-ends-CR", V: pdf.V1_6, Filter: 0, User: "secret", RawEnd: '\r'},
+		docSpec{Name: "plain-raw-ends-LF", V: pdf.V1_4, Filter: 0, RawEnd: '\n'})
 	add("table-human", pdf.V1_7, true, 1, "")
 	add("table-rc4", pdf.V1_4, false, 1, "secret")
 	add("xrefstream-aes128", pdf.V1_7, false, 2, "secret")
@@ -645,6 +697,17 @@ func Run(tier string) int {
 	r.Assume("the byte source is an in-memory ReaderAt wrapper; results are compared through a canonical rendering (harness equality)", "a call that fails must carry the injected error (errors.Is) and not be IsMalformed; a call that succeeds must return the fault-free value")
 
 	specs := docSpecs(r.Thorough())
+	if only := os.Getenv("VERIF_C19_ONLY"); only != "" {
+		// debugging aid: one document only (the run is then reported as not exhaustive)
+		var keep []docSpec
+		for _, sp := range specs {
+			if sp.Name == only {
+				keep = append(keep, sp)
+			}
+		}
+		specs = keep
+		r.Capped("restricted to document " + only)
+	}
 	scs := scenarios(r.Thorough())
 	var docs []*document
 	for _, sp := range specs {
